@@ -36,6 +36,8 @@ pub mod signum;
 
 mod wnaf;
 pub use self::wnaf::Wnaf;
+#[cfg(feature = "verif-hooks")]
+pub use self::wnaf::verif as verif_wnaf;
 
 use ff::{Field, PrimeField, PrimeFieldDecodingError, PrimeFieldRepr, ScalarEngine, SqrtField};
 use std::error::Error;
